@@ -482,6 +482,124 @@ def validate_parse(ctx):
     _cmp(ctx, "pgen.parse", reqs, wants)
 
 
+def validate_recombine(ctx):
+    from dateutil.parser import _parser as P
+    rng = ctx.subrng("pgen.recombine")
+    p = P.parser()
+    reqs, wants = [], []
+    for _ in range(ctx.budget(1500, 8000)):
+        toks = [rng.choice(["a", "b", " ", "12", ",", "foo", ""]) for _ in range(rng.randrange(0, 8))]
+        k = rng.random()
+        if k < 0.7:      # what _parse hands over: increasing indices
+            idxs = sorted(rng.sample(range(len(toks)), rng.randrange(0, len(toks) + 1))) if toks else []
+        elif k < 0.9:    # any order, repeats
+            idxs = [rng.randrange(0, max(1, len(toks))) for _ in range(rng.randrange(0, 6))] if toks else []
+        else:            # out of range
+            idxs = [rng.randrange(0, len(toks) + 3) for _ in range(rng.randrange(1, 5))]
+        reqs.append("pgen.recombine %s %s" % (";".join(L.cps(t) for t in toks) if toks else "E", ",".join(map(str, idxs)) or "N"))
+        wants.append(_r(lambda: p._recombine_skipped(list(toks), list(idxs)), lambda r: "[" + ",".join(L.cps(t) for t in r) + "]"))
+    _cmp(ctx, "pgen.recombine", reqs, wants)
+
+
+def validate_init(ctx):
+    """parserinfo.__init__ of the stock class and of the custom subclasses, with the clock's year patched"""
+    import time as _time
+    from dateutil.parser import _parser as P
+    from dateutil.parser import parserinfo
+    rng = ctx.subrng("pgen.init")
+    reqs, wants = [], []
+    classes = [(parserinfo, False)] + [(k, True) for _, k in L.custom_infos()]
+    real = P.time.localtime
+    try:
+        for _ in range(ctx.budget(300, 1500)):
+            klass, custom = rng.choice(classes)
+            year = rng.choice([1970, 1999, 2000, 2026, 2099, 2100, 9999, 100, 99, 1, rng.randrange(1, 10000)])
+            df, yf = rng.random() < 0.5, rng.random() < 0.5
+            P.time.localtime = lambda *a: _time.struct_time((year, 1, 1, 0, 0, 0, 0, 1, 0))
+            def run():
+                i = klass(df, yf)
+                def keys(d): return ",".join(L.cps(k) for k in d)
+                def items(d): return ",".join("%s=%d" % (L.cps(k), v) for k, v in d.items())
+                return "%d %d %d %d ; %s ; %s ; %s ; %s ; %s ; %s ; %s" % (
+                    i._year, i._century, i.dayfirst, i.yearfirst, keys(i._jump), items(i._weekdays), items(i._months), items(i._hms),
+                    items(i._ampm), keys(i._utczone), keys(i._pertain))
+            w = _r(run, str)
+            inst = klass(df, yf)
+            reqs.append("pgen.init %s %d %d %d" % (L.info_wire(inst, custom) if custom else "D00", year, df, yf))
+            wants.append(w)
+    finally:
+        P.time.localtime = real
+    _cmp(ctx, "pgen.init", reqs, wants)
+
+
+def validate_tzinfo(ctx):
+    from dateutil.parser import _parser as P
+    from dateutil import tz
+    rng = ctx.subrng("pgen.tzinfo")
+    p = P.parser()
+    names = [None, "", "BRST", "EST", "X", "UTC"]
+    strs = ["EST5EDT", "CET-1CEST,M3.5.0,M10.5.0/3", "UTC+3", "bad string", "", "BRST+3BRDT,M13.1.0,M2.3.0", "A" * 3 + "999999999999"]
+    def val():
+        k = rng.random()
+        if k < 0.25: return ("o", rng.randrange(len(L.tzobjs())))
+        if k < 0.5: return ("s", rng.choice(strs))
+        if k < 0.7: return ("i", rng.choice([0, 3600, -10800, 86399, 10 ** 15, -10 ** 15]))
+        if k < 0.8: return ("n",)
+        return ("b",)
+    reqs, wants = [], []
+    for _ in range(ctx.budget(1500, 8000)):
+        kind = rng.choice(["none", "map", "map", "call", "call"])
+        ents = {rng.choice(names): val() for _ in range(rng.randrange(0, 4))}
+        dflt = rng.choice([("n",), ("e",), ("r",), val()]) if kind == "call" else ("n",)
+        if kind == "call" and rng.random() < 0.2 and ents:
+            ents[rng.choice(list(ents))] = ("r",)
+        spec = L.TzSpec(kind, ents, dflt)
+        name = rng.choice(names); off = rng.choice([None, 0, 3600, -10800, 10 ** 15])
+        reqs.append("pgen.tzinfo %s %s %s" % (spec.wire(), L.optname(name), _oi(off)))
+        def run():
+            o = p._build_tzinfo(spec.arg(), name, off)
+            if o is None: return "dn"
+            for k, z in enumerate(L.tzobjs()):
+                if o is z: return "do%d" % k
+            if isinstance(o, tz.tzoffset): return "f %s %d" % (L.optname(o._name), int(o._offset.total_seconds()))
+            if isinstance(o, tz.tzstr): return "s" + L.cps(o._s)
+            return "other " + type(o).__name__
+        wants.append(_r(run, str))
+    _cmp(ctx, "pgen.tzinfo", reqs, wants)
+
+
+class _TailCtx:
+    """the model_answers machinery of _parser_lib with `parser.parse` requests sent to the TRANSLATED tail of parse()"""
+
+    def __init__(self, ctx):
+        self.ctx = ctx
+
+    def driver(self, lines):
+        return self.ctx.driver([("pgen.parsetail " + x[len("parser.parse "):]) if x.startswith("parser.parse ") else x for x in lines])
+
+    def __getattr__(self, n):
+        return getattr(self.ctx, n)
+
+
+def validate_parsetail(ctx):
+    from props import c14
+    rng = ctx.subrng("pgen.parsetail")
+    prev = L.set_tz("UTC")
+    try:
+        for tzenv in ("UTC", "Europe/London"):
+            L.set_tz(tzenv)
+            calls = c14.gen_calls(ctx, rng, ctx.budget(1500, 8000))
+            model = L.model_answers(_TailCtx(ctx), calls)
+            for c, m in zip(calls, model):
+                i, _, _ = L.run_impl(c)
+                ctx.traces += 1
+                if i != m:
+                    ctx.mismatch("pgen.parsetail", c.describe(), i, m)
+            ctx.count("pgen_parsetail", len(calls))
+    finally:
+        L.set_tz(prev)
+
+
 STEP_TEXTS = ["10:36:28 BRST", "10:36 GMT+3", "10:36 UTC-3", "10:36 -0300 (BRST)", "10:36 +03:00", "10:36 -3", "10:36 +0300", "10:36 -030",
               "10:36 -03:00 (EST)", "10:36 +0300 (ABCDEF)", "10:36 +0300 , (BRT)", "Sep-25-2003", "Sep/25", "Sep-25", "Jan of 01", "Jan of ab",
               "Jan of 2001", "September of 99", "Sep 25", "10 pm", "10pm", "am 10", "Thu Sep 25 10:36:28 2003", "Thursday", "10 a", "x y z",
@@ -572,3 +690,7 @@ def validate(ctx):
     validate_naive(ctx)
     validate_loop(ctx)
     validate_parse(ctx)
+    validate_parsetail(ctx)
+    validate_recombine(ctx)
+    validate_init(ctx)
+    validate_tzinfo(ctx)
